@@ -15,7 +15,7 @@ fn verdicts(query: &str, regex: bool, items: &[String]) -> Vec<usize> {
     items
         .iter()
         .enumerate()
-        .filter(|(_, t)| engine.match_item(Arc::new((*t).clone())).is_some())
+        .filter(|(_, t)| engine.match_item(Arc::new(item_text(t))).is_some())
         .map(|(i, _)| i)
         .collect()
 }
